@@ -258,6 +258,10 @@ class gclmulchunker(ChunkerAdapter):
     alignment = 4
 
     def __init__(self, *, min_length=MIN_LENGTH, max_length=MAX_LENGTH):
+        for length in (min_length, max_length):
+            if not isinstance(length, int) or isinstance(length, bool) or length < 1:
+                raise ValueError(f'Chunk length must be a positive integer ({length!r})')
+
         if min_length > max_length:
             raise ValueError(
                 f'Minimum length ({min_length}) is greater '
